@@ -188,6 +188,7 @@ func ruleC16(w *World, r *Report) {
 	ruleTranslatorBytes(w, r, "C16", "R16.8")
 	ruleC16AssumedArgs(w, r)
 	ruleC16GeneratorOutput(w, r)
+	ruleClearDeletesWhatItRead(w, r, "C16", "R16.11")
 	for a := range usedAssumptions {
 		r.Assumptions = append(r.Assumptions, a)
 	}
@@ -1145,6 +1146,10 @@ func ruleC16Generator(w *World, r *Report) {
 			switch x := n.(type) {
 			case *ast.GoStmt:
 				r.bad("R16.9", "cmd/p4info_code_gen", "no goroutines", w.Pos(x.Pos()), "the generator starts a goroutine: output order may vary")
+			case *ast.SelectorExpr:
+				if id, ok := x.X.(*ast.Ident); ok && id.Name == "os" && x.Sel.Name == "Args" {
+					r.bad("R16.9", "cmd/p4info_code_gen", "no environment input: os.Args", w.Pos(x.Pos()), "the generator reads its own command line outside the flag package: under `go run` argv[0] is a temporary path, whatever is derived from it differs from run to run")
+				}
 			case *ast.CallExpr:
 				if sel, ok := x.Fun.(*ast.SelectorExpr); ok {
 					if id, ok := sel.X.(*ast.Ident); ok && id.Name == "os" && (sel.Sel.Name == "Getenv" || sel.Sel.Name == "Environ" || sel.Sel.Name == "LookupEnv" || sel.Sel.Name == "Hostname" || sel.Sel.Name == "Getpid") {
